@@ -73,6 +73,10 @@ TOther == Nop("Susp") \/ Nop("Res") \/ Nop("Quiesce") \/ Nop("ChStart") \/ Nop("
 RecCtl == [op |-> Rec.op, mask |-> ToSet(Rec.mask) \cap Dirs]
 \* the system call the step just taken made is the one recorded on this thread (or none, if none was recorded)
 CtlMatch(t) == lctl' = pctl[t] /\ pctl' = [pctl EXCEPT ![t] = NoCtl] /\ UNCHANGED <<mgrT, xid>>
+\* hang-up acknowledgements run _dispatch_unote_unregister_muxed on the sources' target-queue threads, concurrently
+\* with each other and with the manager (unlocked list operations in C): the order in which they took effect is not
+\* the order of their probes, so the mask of their (failing or soon to be deleted) epoll_ctl is not compared
+CtlLoose(t) == pctl' = [pctl EXCEPT ![t] = NoCtl] /\ UNCHANGED <<mgrT, xid>>
 TCtl ==
   /\ Ev("Ctl") /\ Consume
   /\ Rec.op \in {"add", "mod"} => Rec.oneshot                   \* EV_DISPATCH sources: EPOLLONESHOT
@@ -100,7 +104,8 @@ TProbe ==
   /\ Ev("P") /\ Consume
   /\ \/ Rec.p = "epoll_add" /\ Register(U) /\ ust'[U] = "reg" /\ CtlMatch(T)
      \/ Rec.p = "epoll_rearm" /\ Dir(U) \in dDis /\ ResumeMuxRaw(U) /\ CtlMatch(T)
-     \/ Rec.p = "epoll_del" /\ (UnregisterRaw(U) \/ AckDeleteRaw(U)) /\ CtlMatch(T)
+     \/ Rec.p = "epoll_del" /\ UnregisterRaw(U) /\ CtlMatch(T)
+     \/ Rec.p = "epoll_del" /\ AckDeleteRaw(U) /\ CtlLoose(T)
      \/ /\ Rec.p = "merge_fd" /\ mpc \in {"in_m", "out_m"} /\ U \in todo /\ T = mgrT
         /\ IF mpc = "in_m" THEN (Rec.b % 2) = 1 ELSE ((Rec.b \div 4) % 2) = 1   \* the delivery has the direction being walked
         /\ Same /\ UNCHANGED vars
